@@ -18,16 +18,25 @@
      language says they evaluate: the untaken operand/branch contributes neither a panic nor a
      log entry (C23 is literally the definition of these cases).
    * The GENERATOR: a program is derived by repeatedly replacing the left-most hole of a
-     partial syntax tree by an atom or by a production of the hole's type (one `Expand`
-     action per derivation step).  Exhaustive TLC search over the derivations of a small
-     depth enumerates every constructor over every combination of atoms; `-simulate` samples
-     deeper derivations.  The set-valued `Exprs(d, t, ctx)` is the same grammar as a set
-     (lemma DerivationInExprs, checked by TLC), `AnyExprs(d)` ignores types (C24, C27).
-   * Emission: a finished derivation is printed as one REPLAY line
-         [name?, rt, params, body, envs |-> << [args, exp] ... >>]
-     where exp is Eval's outcome for that argument tuple.  The harness renders the tree to
-     policy source, runs the real parser/compiler/VM and compares (S2I with the spec as the
-     reference semantics).
+     partial syntax tree (actions `Choose`: atom or production?, `Expand`: which one).
+     Exhaustive TLC search over the derivations of a small depth enumerates every production
+     over every combination of atoms; `-simulate` samples deeper derivations (a derivation
+     stops at each hole with probability 1/2, so sampled programs stay small).  Modes:
+       Effects  every hole may also be todo(), test_fail(), a block with a failing check, an early
+                `return`, or a call of a logging foreign function (C23);
+       Quirks   the root production is one that lies *outside* the type system but which a lax
+                compiler accepts (binding alternations, partial struct literals, unchecked
+                global struct constants) (C24).
+     The set-valued `Exprs(d, t, ctx, frt, w)` is the same grammar as a set (lemma
+     DerivationInExprs + count equality, checked by TLC in MC_PolicyLang); `AnyExprs(d)` ignores
+     types (C24, C27).
+   * Emission (invariant `Emit`): a finished derivation is type-checked by `BodyOk`, evaluated on
+     its argument tuples, checked (well typed unless Quirks/deep never-refinement; never stuck;
+     result of the declared type) and printed as one REPLAY line
+         [rt, params, body, typed, fx, envs |-> { [args, exp] ... }]
+     where exp is Eval's outcome for that argument tuple ("skip" for untyped candidates).  The
+     harness renders the tree to policy source, runs the real parser/compiler/VM and compares
+     (S2I with the spec as the reference semantics).
 
    The prelude (enum/struct definitions, helper functions, foreign functions) is part of the
    spec (`Prelude`) and is emitted once, so that the rendered policy document is completely
@@ -40,6 +49,8 @@ CONSTANTS
   Effects,     \* BOOLEAN: panicking / foreign-call / failing-check atoms in every hole (C23)
   RetTypes,    \* set of return types the root hole ranges over
   EnvCap,      \* at most this many argument environments per program
+  Focus,       \* "all" | "ops": "ops" derives only operator productions (&&, ||, !, ==, <, or, is, add, ...)
+               \*   so that sampled derivations are nests of infix/prefix/postfix operators (precedence)
   Quirks       \* BOOLEAN: also derive accepted-but-odd programs (C24): binding alternations, partial struct literals
 
 VARIABLES ast,    \* the syntax tree under construction (a function body with holes)
@@ -698,12 +709,16 @@ EffectAtoms(t, ctx) ==
    expression; value literals are thinned out (their combinations are C22's business).        *)
 FxLits(t) == CASE t = TInt -> {Lit(I(0)), Lit(MAXI)} [] OTHER -> NarrowLits(t)
 OneOf(S) == IF S = {} THEN {} ELSE {CHOOSE z \in S : TRUE}
-Atoms(t, ctx, w) ==
+(* an early `return` from an operand position (type never): the values already on the VM's
+   stack must be dropped by the callee's return sequence *)
+ReturnAtoms(frt, ctx) == {N("return", 0, <<a>>) : a \in OneOf(NarrowLits(frt) \cup VarsIn(frt, ctx))}
+Atoms(t, ctx, w, frt) ==
   IF ~Effects THEN (IF w = "n" THEN NarrowLits(t) ELSE LitsOf(t)) \cup VarsIn(t, ctx)
   ELSE IF w = "n" THEN OneOf(NarrowLits(t) \cup VarsIn(t, ctx)) \cup {N("todo", 0, <<>>)}
                  \cup OneOf({Ffi(f, <<arg>>) : f \in FfiFor(t), arg \in FfiArgAtoms(t, ctx)})
   ELSE FxLits(t) \cup VarsIn(t, ctx)
-       \cup (IF w = "x" THEN {a \in EffectAtoms(t, ctx) : a[1] \notin {"todo", "fail"}} ELSE EffectAtoms(t, ctx))
+       \cup (IF w = "x" THEN {a \in EffectAtoms(t, ctx) : a[1] \notin {"todo", "fail"}}
+             ELSE EffectAtoms(t, ctx) \cup ReturnAtoms(frt, ctx))
 
 (* match pattern catalogues per scrutinee type: sequences of arm patterns; a negative literal is
    only written in the first arm (the concrete syntax reads `(e) -1` as a subtraction)       *)
@@ -748,8 +763,9 @@ MatchTypes == {TInt, TBool, TStr, TColor, TOpt(TInt), TOpt(TP), TRes(TInt, TStr)
 
 (* templates (trees with holes one level below) whose value has type t *)
 Prods(t, ctx, d, frt) ==
-  LET H(t1) == Hole(t1, ctx, d - 1, frt, "f")
-      HC(t1, c1) == Hole(t1, c1, d - 1, frt, "f")
+  LET W == IF Focus = "ops" THEN "n" ELSE "f"
+      H(t1) == Hole(t1, ctx, d - 1, frt, W)
+      HC(t1, c1) == Hole(t1, c1, d - 1, frt, W)
       HN(t1, c1) == Hole(t1, c1, d - 1, frt, "n")
       HX(t1) == Hole(t1, ctx, d - 1, frt, "x")
       v == Fresh(ctx)
@@ -774,7 +790,8 @@ Prods(t, ctx, d, frt) ==
                {N(op, 0, <<H(TBool), H(TBool)>>) : op \in {"and", "or"}}
                \cup {N("not", 0, <<H(TBool)>>)}
                \cup {N(op, 0, <<H(TInt), H(TInt)>>) : op \in {"lt", "gt", "le", "ge"}}
-               \cup {N(op, 0, <<H(et), H(et)>>) : op \in {"eq", "ne"}, et \in EqTypes}
+               \cup {N(op, 0, <<H(et), H(et)>>) : op \in {"eq", "ne"},
+                       et \in IF Focus = "ops" THEN {TInt, TBool, TOpt(TInt)} ELSE EqTypes}
                \cup {N("is", b, <<HX(ot)>>) : b \in BOOLEAN, ot \in OptTypes}
           [] t = TOpt(TInt) ->
                {Call(f, <<H(TInt), H(TInt)>>) : f \in {"add", "sub"}} \cup {N("some", 0, <<H(TInt)>>)}
@@ -811,7 +828,20 @@ Prods(t, ctx, d, frt) ==
                 [] t = TBool -> {N("dot", "b", <<Partial>>), N("eq", 0, <<Partial, H(TP)>>)}
                 [] t = TInt -> {N("dot", "a", <<N("cast", "Q", <<Partial>>)>>)}
                 [] OTHER -> {})
-  IN IF Quirks /\ d = MaxDepth THEN Quirky ELSE Generic \cup Specific
+      (* operator nests: of the two operands of a binary operator only one is expanded further *)
+      Zero(k) == <<k[1], [k[2] EXCEPT !.d = 0], k[3]>>
+      OneSided(tp) == IF Len(tp[3]) = 2 /\ tp[3][1][1] = "hole" /\ tp[3][2][1] = "hole" /\ d > 1
+                      THEN {<<tp[1], tp[2], <<tp[3][1], Zero(tp[3][2])>>>>, <<tp[1], tp[2], <<Zero(tp[3][1]), tp[3][2]>>>>}
+                      ELSE {tp}
+      OpsAll ==
+        (IF TOpt(t) \in AllTypes THEN {N("coalesce", 0, <<HX(TOpt(t)), H(t)>>)} ELSE {})
+        \cup UNION {{N("dot", StructDefs[sn][i][1], <<HX(TStruct(sn))>>) :
+                       i \in {i \in DOMAIN StructDefs[sn] : StructDefs[sn][i][2] = t}} : sn \in {"P", "S"}}
+        \cup (IF t \in {TInt, TBool, TOpt(TInt), TP, TQ} THEN Specific ELSE {})
+      OpsOnly == UNION {OneSided(tp) : tp \in OpsAll}
+  IN IF Quirks /\ d = MaxDepth THEN Quirky
+     ELSE IF Focus = "ops" THEN OpsOnly
+     ELSE Generic \cup Specific
 
 (* statement-list templates for a function returning frt: a list that always ends in a return *)
 SProds(frt, ctx, d, ed, w) ==
@@ -837,7 +867,7 @@ SProds(frt, ctx, d, ed, w) ==
 
 (* the choices for a hole: complete trees or templates.  A statement hole is replaced by a
    *sequence* of statements spliced into the enclosing list.                                *)
-ExprChoices(h, kind) == IF kind = "atom" THEN Atoms(h.t, h.c, h.w)
+ExprChoices(h, kind) == IF kind = "atom" THEN Atoms(h.t, h.c, h.w, h.r)
                         ELSE IF h.d > 0 THEN Prods(h.t, h.c, h.d, h.r) ELSE {}
 StmtChoices(h, kind) == IF kind = "atom" THEN {<<RetS(Hole(h.t, h.c, h.ed, h.t, h.w))>>}
                         ELSE IF h.d > 0 THEN SProds(h.t, h.c, h.d, h.ed, h.w) ELSE {}
@@ -853,7 +883,7 @@ RECURSIVE Exprs(_, _, _, _, _), Inst(_)
 Inst(n) == IF n[1] = "hole" THEN Exprs(n[2].d, n[2].t, n[2].c, n[2].r, n[2].w)
            ELSE {<<n[1], n[2], ks>> : ks \in SeqProduct([i \in DOMAIN n[3] |-> Inst(n[3][i])], 1)}
 Exprs(d, t, ctx, frt, w) ==
-  Atoms(t, ctx, w) \cup (IF d = 0 THEN {} ELSE UNION {Inst(p) : p \in Prods(t, ctx, d, frt)})
+  Atoms(t, ctx, w, frt) \cup (IF d = 0 THEN {} ELSE UNION {Inst(p) : p \in Prods(t, ctx, d, frt)})
 
 AnyAtoms == IF Effects THEN UNION {LitsOf(t) : t \in AllTypes} \cup {Var(Ctx0[i][1]) : i \in DOMAIN Ctx0}
             ELSE {Lit(I(0)), Lit(MAXI), Lit(VT), Lit(VStr("ab")), Lit(VEnum("Color", "Red")), Lit(VNone),
